@@ -49,10 +49,48 @@ theorem reject_is_noop (c : Client) (op : Op) (h : (step c op).2 = false) : (ste
 theorem authz_accept (c c' : Client) (r : AuthzResp) (h : tryStep c (.authz r) = some c') :
     mismatch r.clientIdParam c.clientId = false ∧ mismatch r.issParam c.issuer = false ∧
     ∃ s rec, r.state = some s ∧ lookup c.db s = some rec ∧ idtNonceBad r.idt rec.nonce = false ∧ rec.iss = c.issuer ∧
-      c' = { c with db := put c.db s { rec with code := r.code.orElse (fun _ => rec.code), idt := r.idt.orElse (fun _ => rec.idt) } } := by
+      c' = { c with db := put c.db s { rec with code := r.code.orElse (fun _ => rec.code), idt := r.idt.orElse (fun _ => rec.idt),
+                                                accessToken := r.accessToken.orElse (fun _ => rec.accessToken) } } := by
   simp only [tryStep, bind, Option.bind_eq_some_iff, check_some, Bool.not_eq_true', beq_iff_eq] at h
-  obtain ⟨_, h1, _, h2, s, hs, rec, hr, _, h3, _, h4, h5⟩ := h
+  obtain ⟨_, h1, _, h2, s, hs, rec, hr, _, h3, _, h4, _, _, _, _, _, _, h5⟩ := h
   exact ⟨by simpa using h1, by simpa using h2, s, rec, hs, hr, by simpa using h3, by simpa using h4, by simpa using h5.symm⟩
+
+/-- an accepted authorization response that carries an ID token: the access token and the code delivered beside it are the ones the
+    token's `at_hash` / `c_hash` were computed over — both, whatever else the response carries -/
+theorem authz_accept_hashes (c c' : Client) (r : AuthzResp) (t : IdT) (hi : r.idt = some t) (h : tryStep c (.authz r) = some c') :
+    (∀ a, r.accessToken = some a → t.atHash = some a) ∧ (∀ k, r.code = some k → t.cHash = some k) ∧
+      mismatch r.audParam c.clientId = false := by
+  simp only [tryStep, bind, Option.bind_eq_some_iff, check_some, Bool.not_eq_true', beq_iff_eq] at h
+  obtain ⟨_, _, _, _, s, _, rec, _, _, _, _, _, _, h6, _, h7, _, h8, _⟩ := h
+  constructor
+  · intro a ha
+    rw [hi, ha] at h6
+    simpa [hashBad] using h6
+  constructor
+  · intro k hk
+    rw [hi, hk] at h7
+    simpa [hashBad] using h7
+  · simpa using h8
+
+/-- a response parameter `aud` naming somebody else never switches the ID-token checks off: such a response is rejected as a whole -/
+theorem aud_param_for_somebody_else_rejected (c : Client) (r : AuthzResp) (a : Str) (ha : r.audParam = some a) (hne : a ≠ c.clientId) :
+    step c (.authz r) = (c, false) := by
+  unfold step
+  cases ht : tryStep c (.authz r) with
+  | none => rfl
+  | some c' =>
+    simp only [tryStep, bind, Option.bind_eq_some_iff, check_some, Bool.not_eq_true', beq_iff_eq] at ht
+    obtain ⟨_, _, _, _, s, _, rec, _, _, _, _, _, _, _, _, _, _, h8, _⟩ := ht
+    rw [ha] at h8
+    simp [mismatch, hne] at h8
+
+/-- an access token of another flow beside a (hybrid) code and ID token is rejected, and nothing is recorded -/
+theorem foreign_access_token_rejected (c : Client) (r : AuthzResp) (t : IdT) (a : Str) (hi : r.idt = some t) (ha : r.accessToken = some a)
+    (hne : t.atHash ≠ some a) : step c (.authz r) = (c, false) := by
+  unfold step
+  cases ht : tryStep c (.authz r) with
+  | none => rfl
+  | some c' => exact absurd ((authz_accept_hashes c c' r t hi ht).1 a ha) hne
 
 /-- unknown state: rejected -/
 theorem unknown_state_rejected (c : Client) (r : AuthzResp) (s : Str) (hs : r.state = some s) (hu : lookup c.db s = none) :
